@@ -152,7 +152,7 @@ class CobaContext_meta(type):
     @property
     def api_keys(cls) -> Dict[str,str]:
         """Global API key collection."""
-        cls._api_keys = cls._api_keys if cls._api_keys else cls._config['api_keys']
+        cls._api_keys = cls._api_keys if cls._api_keys is not None else cls._config['api_keys']
         return cls._api_keys
 
     @api_keys.setter
